@@ -83,6 +83,7 @@ type prover struct {
 	seenV map[ssa.Value]bool
 	seenL map[ssa.Value]bool
 	depth int
+	subst map[ssa.Value]ssa.Value // phi -> the operand taken on the edge being examined
 }
 
 func valKey(v ssa.Value) string { return fmt.Sprintf("v:%p", v) }
@@ -99,6 +100,9 @@ func isLenCall(v ssa.Value) (ssa.Value, bool) {
 
 // norm normalises an integer value to sym+off and records definitional facts.
 func (p *prover) norm(v ssa.Value) term {
+	if r, ok := p.subst[v]; ok {
+		v = r
+	}
 	switch x := v.(type) {
 	case *ssa.Const:
 		if x.Value != nil && x.Value.Kind() == constant.Int {
@@ -248,6 +252,7 @@ func (p *prover) valFacts(v ssa.Value) {
 		for _, e := range x.Edges {
 			classify(e, 0)
 		}
+		p.guardedUpper(x, k)
 		if len(inits) > 0 {
 			for _, t := range inits {
 				_ = t
@@ -386,6 +391,9 @@ func (p *prover) lenFacts(v ssa.Value) {
 	p.seenL[v] = true
 	k := lenKey(v)
 	p.g.le("0", k, 0) // len >= 0
+	if prm, ok := v.(*ssa.Parameter); ok && p.c != nil && p.c.paramNonEmpty(prm) {
+		p.g.le("0", k, -1) // every caller passes a non-empty value: len >= 1
+	}
 	p.heapEq(v)
 	eq := func(t term) {
 		if t.ok {
@@ -832,6 +840,11 @@ func (p *prover) nonNeg(v ssa.Value, depth int) bool {
 		return true
 	}
 	switch x := v.(type) {
+	case *ssa.Extract:
+		// bufio.SplitFunc contract: 0 <= advance <= len(data)
+		if call, ok := x.Tuple.(*ssa.Call); ok && x.Index == 0 && advanceFuncs[CalleeName(call)] {
+			return true
+		}
 	case *ssa.Convert:
 		// widening conversion of an unsigned 32-bit (or smaller) value to int
 		if b, ok := x.X.Type().Underlying().(*types.Basic); ok && b.Info()&types.IsUnsigned != 0 {
@@ -900,4 +913,172 @@ func (p *prover) valuePreserving(x *ssa.Convert) bool {
 		}
 	}
 	return t.ok && p.g.prove(t.sym, "0", limit-t.off)
+}
+
+// guardedUpper: x is the counter of `for x = c0; x < N; x++` (every recurrent edge is x+1 taken inside the
+// branch guarded by the header's own test x < N, N loop-invariant, c0 <= N provable for c0 = 0 and N a length):
+// then x <= N holds at the header and everywhere it dominates.
+func (p *prover) guardedUpper(x *ssa.Phi, k string) {
+	h := x.Block()
+	if len(h.Instrs) == 0 {
+		return
+	}
+	iff, ok := h.Instrs[len(h.Instrs)-1].(*ssa.If)
+	if !ok {
+		return
+	}
+	bo, ok := iff.Cond.(*ssa.BinOp)
+	if !ok {
+		return
+	}
+	var bound ssa.Value
+	switch {
+	case bo.Op == token.LSS && bo.X == ssa.Value(x):
+		bound = bo.Y
+	case bo.Op == token.GTR && bo.Y == ssa.Value(x):
+		bound = bo.X
+	default:
+		return
+	}
+	if dependsOn(bound, x, 0) {
+		return
+	}
+	// the bound must be a length (>= 0) computed from a value that is not reassigned in the loop: len(v) with v a
+	// parameter or a value defined outside the loop
+	arg, isLen := isLenCall(bound)
+	if !isLen {
+		return
+	}
+	if in, ok := arg.(ssa.Instruction); ok && in.Block() != nil {
+		if _, isPhi := arg.(*ssa.Phi); isPhi {
+			return
+		}
+		if !in.Block().Dominates(h) || in.Block() == h {
+			// defined in the header itself or inside the loop: only accept loads/params
+			if _, isParam := arg.(*ssa.Parameter); !isParam && in.Block() != h {
+				return
+			}
+		}
+	}
+	body := h.Succs[0]
+	for i, e := range x.Edges {
+		pred := h.Preds[i]
+		if !dependsOn(e, x, 0) {
+			// initial value: the constant 0, or a constant c0 with c0 <= len(arg) provable here
+			c0, ok := ConstInt(e)
+			if !ok || c0 < 0 {
+				return
+			}
+			if c0 > 0 {
+				p.lenFacts(arg)
+				if !p.g.prove("0", lenKey(p.canon(arg)), -c0) {
+					return
+				}
+			}
+			continue
+		}
+		add, ok := e.(*ssa.BinOp)
+		if !ok || add.Op != token.ADD || add.X != ssa.Value(x) {
+			return
+		}
+		if c1, ok := ConstInt(add.Y); !ok || c1 != 1 {
+			// or the advance of a bufio.SplitFunc-style scanner run on v[x:]: advance <= len(v) - x
+			ex, isEx := add.Y.(*ssa.Extract)
+			if !isEx || ex.Index != 0 {
+				return
+			}
+			call, isCall := ex.Tuple.(*ssa.Call)
+			if !isCall || !advanceFuncs[CalleeName(call)] || len(call.Call.Args) == 0 {
+				return
+			}
+			sl, isSl := call.Call.Args[0].(*ssa.Slice)
+			if !isSl || sl.X != arg || sl.Low != ssa.Value(x) || sl.High != nil {
+				return
+			}
+		}
+		// the increment happens only after the guard held in this iteration
+		if !(body.Dominates(pred) || body == pred) || len(body.Preds) != 1 {
+			return
+		}
+	}
+	t := p.norm(bound)
+	if !t.ok {
+		return
+	}
+	p.g.le(k, t.sym, t.off) // x - N <= 0
+}
+
+// splitOnPhi proves an index/slice obligation whose bound is a join (a phi that does not depend on itself)
+// by proving it separately for the operand of every incoming edge with the facts of that edge's source block.
+func splitOnPhi(c *Ctx, loads []heapLoad, fn *ssa.Function, in ssa.Instruction) bool {
+	var cands []ssa.Value
+	switch x := in.(type) {
+	case *ssa.Slice:
+		cands = []ssa.Value{x.Low, x.High}
+	case *ssa.IndexAddr:
+		cands = []ssa.Value{x.Index}
+	case *ssa.Index:
+		cands = []ssa.Value{x.Index}
+	}
+	for _, cv := range cands {
+		ph, ok := cv.(*ssa.Phi)
+		if !ok || dependsOnSelf(ph) || ph.Block() != in.Block() {
+			continue
+		}
+		all := true
+		for i, e := range ph.Edges {
+			pr := newProver(c, loads, fn, ph.Block().Preds[i])
+			pr.subst = map[ssa.Value]ssa.Value{ph: e}
+			ok := false
+			switch x := in.(type) {
+			case *ssa.Slice:
+				ok = pr.proveSlice(x)
+			case *ssa.IndexAddr:
+				ok = pr.proveIndex(x.X, x.Index)
+			case *ssa.Index:
+				ok = pr.proveIndex(x.X, x.Index)
+			}
+			if !ok {
+				all = false
+				break
+			}
+		}
+		if all {
+			return true
+		}
+	}
+	return false
+}
+
+func dependsOnSelf(ph *ssa.Phi) bool {
+	seen := map[ssa.Value]bool{}
+	var rec func(v ssa.Value) bool
+	rec = func(v ssa.Value) bool {
+		if v == ssa.Value(ph) {
+			return true
+		}
+		if seen[v] {
+			return false
+		}
+		seen[v] = true
+		switch y := v.(type) {
+		case *ssa.Phi:
+			for _, e := range y.Edges {
+				if rec(e) {
+					return true
+				}
+			}
+		case *ssa.BinOp:
+			return rec(y.X) || rec(y.Y)
+		case *ssa.Convert:
+			return rec(y.X)
+		}
+		return false
+	}
+	for _, e := range ph.Edges {
+		if rec(e) {
+			return true
+		}
+	}
+	return false
 }
